@@ -125,12 +125,16 @@ def dense(x):
 
 
 def near_rows(x1, x2=None):
-    """True if two rows (of the same batch element) are closer than 1e-3 without being identical.  The library's
-    quadratic-expansion distance loses sqrt(eps) there, and batched / non-batched matmuls round differently: kernels with a
+    """True if two rows at different positions (of the same batch element) are closer than 1e-3 - identical rows included: after
+    the library centres the data, |a|^2 - 2ab + |b|^2 of two equal rows is a rounding residue, not 0.  The quadratic-expansion
+    distance loses sqrt(eps) there, and batched / non-batched matmuls round differently: kernels with a
     kink at r = 0 (Matern, piecewise polynomial, cosine) are then compared at atol 1e-6 (DESIGN 1.4), everything else at 1e-11"""
-    x2 = x1 if x2 is None else x2
+    same = x2 is None
+    x2 = x1 if same else x2
     d = (x1.unsqueeze(-2) - x2.unsqueeze(-3)).abs().amax(-1)
-    return bool(((d > 0) & (d < 1e-3)).any())
+    if same:
+        d = d + torch.eye(d.shape[-1]) * 1.0  # a row against itself: the diagonal is zeroed by the library
+    return bool((d < 1e-3).any())
 
 
 def spread(outs):
@@ -747,7 +751,8 @@ def exact_case(draw):
     tbs = [s for s in SHAPES if compatible(s, full) and numel(bshape(s, full)) <= 9]
     tb = draw(st.sampled_from([db, db, full, []] + tbs))
     return {"pb": pb, "db": db, "xb": xb, "tb": tb, "d": d, "n": n, "ns": ns, "mean": mean, "kernel": kernel, "lik": lik, "mixed": mixed,
-            "X": draw(kern.points(n, d, xb)), "y": draw(kern.arr(db + [n], kern.REAL)), "Xs": draw(kern.points(ns, d, tb))}
+            "X": draw(kern.points(n, d, xb)), "y": draw(kern.arr(db + [n], kern.REAL)), "Xs": draw(kern.points(ns, d, tb)),
+            "fpv": draw(st.integers(0, 2)) == 0, "eager": draw(st.integers(0, 3)) == 0}
 
 
 def _exact_outputs(case, r_mean, r_kernel, r_lik, X, y, Xs):
@@ -764,10 +769,12 @@ def _exact_outputs(case, r_mean, r_kernel, r_lik, X, y, Xs):
         out["mll"] = mll(prior, y)
         model.eval()
         lik.eval()
-        post = model(Xs)
-        out["posterior.mean"], out["posterior.covariance"] = post.mean, post.covariance_matrix
-        if r_lik["l"] == "Gaussian":
-            out["predictive.covariance"] = lik(post).covariance_matrix
+        # the same computational path on both sides (below max_cholesky_size fast_pred_var is an exact Cholesky-based root)
+        with S.fast_pred_var(bool(case.get("fpv"))), S.lazily_evaluate_kernels(not case.get("eager")):
+            post = model(Xs)
+            out["posterior.mean"], out["posterior.covariance"] = post.mean, post.covariance_matrix
+            if r_lik["l"] == "Gaussian":
+                out["predictive.covariance"] = lik(post).covariance_matrix
     return out
 
 
@@ -796,6 +803,8 @@ def run_exact(case, ctx: Ctx):
     rows = torch.cat([X.expand(*full, *X.shape[-2:]), Xs.expand(*full, *Xs.shape[-2:])], -2)
     smooth = kern.smooth_at_zero(case["kernel"]) or not near_rows(rows)
     tol = G.chol_tol(kappa, smooth)  # DESIGN 1.4: one dense solve
+    if case.get("fpv"):
+        tol = 30 * tol  # the cached inverse root costs an explicit triangular inverse and two more products
     for key, g in got.items():
         train_side = key in ("prior.mean", "prior.covariance", "train.marginal_covariance", "mll")
         own = None if not train_side else (f_prior if key.startswith("prior") else (f_marg if key.startswith("train") else f_train))
@@ -806,7 +815,7 @@ def run_exact(case, ctx: Ctx):
               scale=sc if solve else None)
     nontrivial(ctx, pbe, db, [torch.cat([rp["posterior.mean"], rp["posterior.covariance"].reshape(-1), rp["mll"].reshape(1)]) for rp in reps])
     pat_labels(ctx, pbe, db)
-    ctx.label("model=exact", f"likelihood={lik_name(case['lik'])}", f"mixed={case['mixed']}", f"xb_vs_db={'same' if xb == db else 'shared'}",
+    ctx.label("model=exact", f"fpv={bool(case.get('fpv'))}", f"eager={bool(case.get('eager'))}", f"likelihood={lik_name(case['lik'])}", f"mixed={case['mixed']}", f"xb_vs_db={'same' if xb == db else 'shared'}",
               f"tb={'db' if tb == db else ('none' if not tb else ('full' if tb == full else 'other'))}",
               *{f"kernel={l['k']}" for l in kern.leaves(case["kernel"])})
 
